@@ -8,6 +8,7 @@ package main
 // and compared with what the recorder reads. Labelled static, not simulation.
 
 import (
+	"reflect"
 	"bufio"
 	"bytes"
 	"go/ast"
@@ -126,7 +127,7 @@ func checkCleanupWired(r *verifsim.Run) {
 					}
 					ast.Inspect(st, func(n ast.Node) bool {
 						if c, ok := n.(*ast.CallExpr); ok {
-							if id, ok := c.Fun.(*ast.Ident); ok && id.Name == "deleteTempFiles" && len(c.Args) == 1 {
+							if id, ok := c.Fun.(*ast.Ident); ok && id.Name == "deleteTempFiles" && len(c.Args) >= 1 {
 								if se, ok := c.Args[0].(*ast.SelectorExpr); ok && se.Sel.Name == "OutputDir" {
 									found = true
 									if callPos == token.NoPos {
@@ -247,4 +248,28 @@ func loadBadFrameBranch() {
 			}
 		}
 	}
+}
+
+// startupCleanup calls deleteTempFiles(dir) the way runMain does once at start-up. The call goes
+// through reflection so that a change of the function's parameter list still compiles and gets a
+// verdict instead of a build error (further parameters get their zero value, i.e. a new option at
+// its default).
+func startupCleanup(dir string) error {
+	fn := reflect.ValueOf(deleteTempFiles)
+	t := fn.Type()
+	args := make([]reflect.Value, t.NumIn())
+	for i := range args {
+		if i == 0 && t.In(0).Kind() == reflect.String {
+			args[i] = reflect.ValueOf(dir).Convert(t.In(0))
+		} else {
+			args[i] = reflect.Zero(t.In(i))
+		}
+	}
+	out := fn.Call(args)
+	if n := len(out); n > 0 {
+		if err, ok := out[n-1].Interface().(error); ok {
+			return err
+		}
+	}
+	return nil
 }
